@@ -45,7 +45,7 @@ def run(E: Engine, rep: Report, tier: str) -> dict:
                     elif e.op == "assign" and f.name == "__post_init__" and isinstance(e.node, (ast.Assign, ast.AnnAssign)) and isinstance(e.node.value, ast.List) and not e.node.value.elts:
                         rep.ok("OWN", key, "initialisation to the empty list", where)
                     elif e.op == "setitem" and f.short == "Sequence._set_register":
-                        ok = _rebuilds_same_slot(e.node)
+                        ok = _rebuilds_same_slot(E, f)
                         rep.check(ok, "OWN", key, "index assignment rebuilds the slot from its own fields, only `targets` replaced", "Sequence._set_register rewrites a slot with something other than its own fields (+targets): instruction times could move", where)
                     else:
                         rep.violation("OWN", key, f"`{e.text}` in {f.short}: the slot list must only be appended to (instruction times never move once scheduled); found operation '{e.op}'", where)
@@ -228,11 +228,33 @@ def run(E: Engine, rep: Report, tier: str) -> dict:
     return {"slot_write_sites": n_sites, "functions_analysed": len(P.functions), "call_sites": getattr(E, "_n_call_events", 0)}
 
 
-def _rebuilds_same_slot(st: ast.AST) -> bool:
-    """`x.slots[i] = _TimeSlot(**stored_values)` where stored_values = slot._asdict() with only 'targets' reassigned."""
-    if not isinstance(st, ast.Assign):
+def _rebuilds_same_slot(E, f) -> bool:
+    """Every `<...>.slots[i] = v` of ``f`` stores slot i itself with only `targets` replaced: either
+    `slot._replace(targets=...)` or `_TimeSlot(**d)` with d = slot._asdict() and `d['targets']` the only key
+    written; i and slot are the two items of one `enumerate(...)` element (symbolic normal form)."""
+    from .. import sym
+    from .symutil import S, is_, unobj
+
+    Sf = S(E, f)
+    sites = [l for l in Sf.logged("store") if l.target is not None and l.target[0] == "idx" and unobj(l.target[1])[0] == "attr" and unobj(l.target[1])[2] == "slots"]
+    if not sites:
         return False
-    v = st.value
-    if not (isinstance(v, ast.Call) and (dotted(v.func) or "") == "_TimeSlot" and not v.args and len(v.keywords) == 1 and v.keywords[0].arg is None):
-        return False
-    return isinstance(v.keywords[0].value, ast.Name)
+    for l in sites:
+        idx, v = l.target[2], unobj(l.value)
+        src = None
+        m = is_(v, "Q_s._replace(targets=Q_t)")
+        if m is not None:
+            src = m["Q_s"]
+        elif v[0] == "call" and v[1] == ("name", "_TimeSlot") and not v[2] and len(v[3]) == 1 and v[3][0][0] == "**":
+            d = v[3][0][1]
+            m2 = is_(unobj(d), "Q_s._asdict()")
+            if m2 is not None:
+                keys = [w.target[2] for w in Sf.logged("store") if w.target is not None and w.target[0] == "idx" and w.target[1] == d]
+                if all(k == ("const", "targets") for k in keys):
+                    src = m2["Q_s"]
+        if src is None:
+            return False
+        same = idx[0] == "item" and src[0] == "item" and idx[1] == src[1] and idx[2] == 0 and src[2] == 1 and idx[1][0] == "elem" and unobj(idx[1][1])[0] == "call" and unobj(idx[1][1])[1] == ("name", "enumerate")
+        if not same:
+            return False
+    return True
